@@ -301,6 +301,19 @@ def atom_text(v) -> str:
     return repr(v)
 
 
+def _balanced(t: str) -> bool:
+    """The text is one bracket-balanced piece (so that `[` ... `]` around it were one display, not two)."""
+    depth = 0
+    for ch in t:
+        if ch in "([{":
+            depth += 1
+        elif ch in ")]}":
+            depth -= 1
+            if depth < 0:
+                return False
+    return depth == 0
+
+
 STR_ATTRS: set = set()  # attribute names that only ever hold text literals in the tree under analysis (model.Repo.str_attrs, set by report.Ctx)
 SEQ_TEXTS: set = set()  # `self.<name>` texts that only ever hold lists / dicts / texts in the tree under analysis (set by report.Ctx)
 STR_CALLS = (".strftime", ".isoformat")  # methods whose result is text whatever the receiver
@@ -372,6 +385,26 @@ def flat_effects(effects, inside=()):
 
 class _EndWith(ast.stmt):
     _fields = ()
+
+
+def _single_entry(parts):
+    """(key text, value text) when the parts are exactly one dictionary entry `key: value`."""
+    if len(parts) != 1 or parts[0][0] != "e" or not isinstance(parts[0][1], str):
+        return None
+    t, depth, quote = parts[0][1], 0, None
+    for i, ch in enumerate(t):
+        if quote:
+            if ch == quote and t[i - 1] != "\\":
+                quote = None
+        elif ch in "'\"":
+            quote = ch
+        elif ch in "([{":
+            depth += 1
+        elif ch in ")]}":
+            depth -= 1
+        elif ch == ":" and depth == 0 and t[i:i + 2] == ": ":
+            return (t[:i], t[i + 2:]) if not t.startswith("**") else None
+    return None
 
 
 class Summariser:
@@ -1075,17 +1108,50 @@ class Summariser:
                 j = 0
                 while j < len(va.parts) and j < len(vb.parts) and va.parts[j] == vb.parts[j]:
                     j += 1
+                ea, eb = _single_entry(va.parts[j:]), _single_entry(vb.parts[j:])
+                if va.kind == "dict" and ea is not None and eb is not None and ea[1] == eb[1]:
+                    # the same value filed under a key chosen by the test: one entry with a conditional key
+                    env[name] = Seq("dict", va.parts[:j] + (("e", f"{self.cond_term(ctext, Term(ea[0]), Term(eb[0])).text}: {ea[1]}"),))
+                    continue
                 env[name] = Seq(va.kind, va.parts[:j] + (self.mk_if(ct, cf, va.parts[j:], vb.parts[j:], boolean_parts=True),))
             else:
                 kind = getattr(va, "kind", None) if getattr(va, "kind", None) == getattr(vb, "kind", None) else None
                 env[name] = self.cond_term(ctext, va, vb, kind)
         return State(env, effects)
 
+    def _flatten_choice(self, ctext, ta, tb):
+        """A choice nested in a choice, one of whose values is the other arm of the outer choice, is one choice under a
+        conjunction: ((A if c2 else X) if c1 else X) = (A if c1 and c2 else X), (X if c1 else (A if c2 else X)) =
+        (A if not c1 and c2 else X), ...  The conjunction is spelt and oriented like a test written as a conjunction."""
+        if ctext not in self.atoms:
+            return None
+        oct_, ocf = self.atoms[ctext]
+        for outer, inner_text, other in ((oct_, ta, tb), (ocf, tb, ta)):
+            inner = self.condterms.get(inner_text)
+            if inner is None or inner[0] not in self.atoms:
+                continue
+            ict, icf = self.atoms[inner[0]]
+            for side, special, rest in ((ict, inner[1], inner[2]), (icf, inner[2], inner[1])):
+                if rest != other or special == other:
+                    continue
+                if any(t.startswith("ALL[") for t, _ in list(outer) + list(side)):
+                    continue
+                both = sorted(set(outer) | set(side))
+                if any((t, not p) in both for t, p in both):
+                    continue
+                text_, swapped = self.orient(both, [("ALL[" + cnd._signed(both) + "]", False)])
+                return (text_, other, special) if swapped else (text_, special, other)
+        return None
+
     def cond_term(self, ctext, va, vb, kind=None):
         if text(va) == "True" and text(vb) == "False":
             return Term(ctext)
         if text(va) == "False" and text(vb) == "True":
             return Term(neg_text(ctext))
+        flat = self._flatten_choice(ctext, atom_text(va), atom_text(vb))
+        if flat is not None:
+            c, x, y = flat
+            return self.cond_term(c, Term(x, kind), Term(y, kind), kind)
         t = f"({atom_text(va)} if {ctext} else {atom_text(vb)})"
         self.condterms[t] = (ctext, atom_text(va), atom_text(vb))
         return Term(t, kind)
@@ -1700,6 +1766,8 @@ class Summariser:
         if isinstance(op, ast.Sub):
             return pa - pb
         if isinstance(op, ast.Mult):
+            if any(isinstance(x, Term) and x.kind == "str" for x in (a, b)):
+                return Term(text(pa * pb), "str")  # a text repeated is a text
             return pa * pb
         sym = {ast.FloorDiv: "//", ast.Mod: "%", ast.LShift: "<<", ast.RShift: ">>", ast.BitAnd: "&", ast.BitOr: "|", ast.BitXor: "^", ast.Div: "/", ast.Pow: "**"}.get(type(op))
         if sym is None:
@@ -1770,6 +1838,10 @@ class Summariser:
             except Unsupported:
                 pass
         if isinstance(n, ast.Call):
+            if isinstance(n.func, ast.Name) and n.func.id == "list" and len(n.args) == 1 and not n.keywords and "list" not in env:
+                t_ = self._c(n.args[0], env)
+                if len(t_) >= 2 and t_[0] + t_[-1] == "[]" and _balanced(t_[1:-1]):
+                    return t_  # `list([a, b])` of a display is (a fresh copy of) that display
             if isinstance(n.func, ast.Name) and n.func.id == "len" and len(n.args) == 1:
                 return atom_text(self.call(n, env))
             if isinstance(n.func, ast.Name) and n.func.id in ("bytes", "bytearray") and len(n.args) == 1 and not n.keywords:
@@ -1848,8 +1920,23 @@ class Summariser:
                     out += "{" + self._c(v.value, env) + ("!" + chr(v.conversion) if v.conversion != -1 else "") + (":" + self._c(v.format_spec, env)[2:-1] if v.format_spec is not None else "") + "}"
             return "f" + repr(out)
         if isinstance(n, (ast.Tuple, ast.List)):
-            inner = ", ".join(self._c(e, env) for e in n.elts)
-            return f"({inner}{',' if len(n.elts) == 1 else ''})" if isinstance(n, ast.Tuple) else f"[{inner}]"
+            texts = []
+            for e in n.elts:
+                if isinstance(e, ast.Starred):
+                    t = self._c(e.value, env)
+                    if len(t) >= 2 and t[0] + t[-1] in ("[]", "()") and _balanced(t[1:-1]):
+                        if t[1:-1].rstrip(",").strip():
+                            texts.append(t[1:-1].rstrip(",").rstrip())  # `[*[a, b], c]` is `[a, b, c]`
+                        continue
+                    texts.append("*" + t)
+                else:
+                    texts.append(self._c(e, env))
+            inner = ", ".join(texts)
+            return f"({inner}{',' if len(texts) == 1 else ''})" if isinstance(n, ast.Tuple) else f"[{inner}]"
+        if isinstance(n, ast.Call) and isinstance(n.func, ast.Name) and n.func.id == "list" and len(n.args) == 1 and not n.keywords and n.func.id not in env:
+            t = self._c(n.args[0], env)
+            if len(t) >= 2 and t[0] + t[-1] == "[]" and _balanced(t[1:-1]):
+                return t  # `list([a, b])` of a display is (a fresh copy of) that display
         if isinstance(n, ast.Dict):
             return "{" + ", ".join(f"{self._c(k, env) if k is not None else '**'}: {self._c(v, env)}" for k, v in zip(n.keys, n.values)) + "}"
         if isinstance(n, ast.IfExp):
